@@ -10,7 +10,7 @@ From Verif Require Import Crash.Model Crash.ProofsStore Crash.ProofsInv Crash.Pr
 From Verif Require Chain.Model Chain.Proofs Chain.ProofsWalk Chain.Examples LogDB.Model LogDB.ProofsCanon LogDB.ProofsSync
   Crash.LogCrash Crash.ExamplesLog.
 (* the bridge to wp-bft's model (coq/Bft): qualified names as well (Bft.Tree and Crash.Model both define blk, b_id, ...) *)
-From Verif Require Compose.CrashBft Compose.CrashBftExamples.
+From Verif Require Compose.CrashBft Compose.CrashBftExamples Compose.CrashBftFork.
 Import ListNotations.
 Open Scope N_scope.
 
@@ -25,12 +25,25 @@ Theorem every_cut_satisfies_invariant c s0 hist k :
 Proof. exact (crash_inv c s0 hist k). Qed.
 
 (* after restart (with or without the F6 repair in NewEngine) the best block's summary, transactions, receipts, index
-   nodes, state nodes and all ancestors are present, the finalized block is stored *)
+   nodes, state nodes and all ancestors are present, the finalized block is stored.
+   NOTE: the model's [restart] is total where the code is not: bft.NewEngine returns an error (the node does not start) when
+   the CommitBlock it re-runs for an interrupted head fails (computeState / findCheckpointByQuality error).  In the model a
+   failing search is [find_checkpoint = None] and the repair then writes the quality record alone; no lemma excludes that
+   branch for the interrupted head, so "restart succeeds" is proved of the model's restart, on the real code it is what the
+   harness observes at every cut (restart-fails is a finding class). *)
 Theorem crash_consistent c rep s0 hist k :
   wf_cfg c -> Inv c s0 -> wf_hist c s0 hist ->
   exists s' best fin, restart c rep (crash c s0 hist k) = Some (s', best, fin) /\
                       readable s' best = true /\ stored s' fin = true /\ Inv c s'.
 Proof. exact (ProofsCrash.crash_consistent c rep s0 hist k). Qed.
+
+(* a second crash, during the restart repair of a head (at most one batch since the F13 repair): the invariant holds after
+   any prefix of it and the next start succeeds again *)
+Theorem crash_during_repair_is_consistent c rep s id j : wf_cfg c -> Inv c s ->
+  let s1 := apply_writes s (firstn j (repair_one c s id)) in
+  Inv c s1 /\
+  exists s' best fin, restart c rep s1 = Some (s', best, fin) /\ Inv c s' /\ readable s' best = true /\ stored s' fin = true.
+Proof. exact (ProofsCrash.crash_during_repair_is_consistent c rep s id j). Qed.
 
 (* quality / finalized records found after a cut refer to blocks that are stored and complete (they are written last) *)
 Theorem bft_records_after_block c s0 hist k :
@@ -90,7 +103,8 @@ Theorem resume_converges_observations c s0 hist k i :
     (forall id, stored r id = stored (run c s0 hist) id) /\ (forall id, get_quality r id = get_quality (run c s0 hist) id).
 Proof. exact (ProofsResumeAll.resume_converges_observations c s0 hist k i). Qed.
 
-(* the commit of the bft engine is at most ONE batch (so there is no cut between the quality and the finalized record) *)
+(* REMARK (restates the shape of the model's commit_steps, which is tied to the code by the write-sequence comparison of the
+   harness): the commit of the bft engine is at most ONE batch, so there is no cut between the quality and the finalized record *)
 Theorem bft_commit_is_one_batch c s id parent just comm :
   let cw := writes_of_steps (commit_steps c s id parent just comm) in
   cw = [] \/
@@ -162,7 +176,7 @@ Proof. exact resume_converges_on_example. Qed.
    of an epoch; Lag r u = r and u agree under every key but the finalized record and r's finalized block is u's or an
    ancestor of it). *)
 (* one import on a lagging and an up-to-date store: the relation is kept, and the import that moves the up-to-date node's
-   finalized block makes the stores equivalent (the step the theorem above iterates) *)
+   finalized block makes the stores equivalent *)
 Theorem lagging_import_step c r u b : wf_cfg2 c -> Inv2 c u -> InvQ c u -> wf_blk u b -> Lag c r u ->
   bft_rejected c u b = false ->
   Lag c (run1 c r b) (run1 c u b) /\
@@ -191,8 +205,11 @@ Example invq_and_lag_not_vacuous :
 Proof. exact ex_invq_lag. Qed.
 
 (* ---- the log database (the node's second store; anchors cmd/thor/sync_logdb.go, logdb/logdb.go).
-   Key-value level: the combined sequence of atomic commits of one import is the main database's batches with the log
-   database's single transaction inserted after the state commit, for a block that becomes best only. *)
+   Key-value level — REMARKS, not independent theorems: [dual_steps] DEFINES the combined sequence of atomic commits of
+   one import as the main database's batches with the log database's single transaction inserted after the state commit, for
+   a block that becomes best only; the four statements below read that definition back (what ties it to the code is the
+   harness's observer of the log tables at every main-database write: class log-commit-position).  The content is in the
+   block-level theorems further down. *)
 Theorem main_db_sees_the_same_writes c s b : mains (dual_steps c s b) = import_batches c s b.
 Proof. exact (dual_mains c s b). Qed.
 
@@ -211,6 +228,8 @@ Proof. exact (ProofsDual.side_block_has_no_log_commit c s b). Qed.
 
 (* Block level (Crash/LogCrash.v: node = wp-chain's repository + wp-chain's log tables; an import = [log transaction;]
    AddBlock; lcut = a crash after j of these updates; lrestart = syncLogDB at start, LogDB/Model.v sync_logdb).
+   Scope: tables as [imported] builds them from [empty_db] (no rows for the genesis block: a genesis with receipts is outside),
+   and conditional on sync_logdb returning Some (no totality lemma).
    For EVERY import history (LogDB.ProofsCanon.imported: any valid AddBlock calls, best blocks through writeLogs), EVERY
    next block and EVERY cut: if the start-up re-sync returns, the node is in a state of the uninterrupted run — the one
    before the import or the one after it — and its log tables are exactly the logs of the canonical chain of the
@@ -519,7 +538,8 @@ Example id_bridge_instance :
   (forall a b, CrashBft.small a -> CrashBft.small b -> (CrashBft.tr_small a <? CrashBft.tr_small b) = (a <? b)).
 Proof. exact (conj CrashBft.tr_small_num CrashBft.tr_small_lt). Qed.
 
-(* ... every hypothesis of the theorems above holds of the example history (one signer, COM votes, one proposer slot) ... *)
+(* ... every hypothesis of the theorems above holds of the example history (DEGENERATE: one signer, COM votes, one proposer
+   slot, threshold 0, linear chain; the forked three-signer instance follows below) ... *)
 Example bridge_hypotheses_met :
   CrashBft.BM.c_L CrashBftExamples.xbc = c_L ex_cfg /\
   (forall a, CrashBft.small a -> CrashBft.BT.idnum (CrashBft.tr_small a) = num_of a) /\
@@ -576,9 +596,81 @@ Example consistent_tree_on_example :
      In (CrashBft.ablk CrashBft.tr_small CrashBftExamples.xsg CrashBftExamples.xcm b) (CrashBft.BM.n_repo CrashBftExamples.xrun)).
 Proof. exact CrashBftExamples.ex_tree. Qed.
 
+(* a second, non-degenerate instance of the bridge (Compose/CrashBftFork.v): epoch length 4, three proposer slots (a round is
+   justified by 3 distinct signers, committed by 3 COM votes), one non-COM vote, and a fork whose round is not justified.
+   The crash-side flags are the Bft tally at import time (the coupling premise); the flags differ from block to block ... *)
+Example fork_bridge_flags :
+  map (fun b => (num_of (b_id b), b_just b, b_comm b)) CrashBftFork.fhist =
+  [ (1, false, false); (2, false, false); (3, true, false);
+    (4, false, false); (5, false, false); (6, true, true); (7, true, true);
+    (6, false, false); (7, false, false);
+    (8, false, false); (9, false, false); (10, true, true); (11, true, true) ].
+Proof. exact CrashBftFork.fhist_flags. Qed.
+
+(* ... every hypothesis of the bridge theorems holds of it ... *)
+Example fork_bridge_hypotheses_met :
+  CrashBft.BM.c_L CrashBftFork.fbc = c_L CrashBftFork.fcfg /\ wf_cfg2 CrashBftFork.fcfg /\
+  c_g CrashBftFork.fcfg = b_id ex_gen /\ CrashBft.small (b_id ex_gen) /\
+  wf_hist CrashBftFork.fcfg CrashBftFork.fs0 CrashBftFork.fhist /\
+  CrashBft.hist_ok CrashBftFork.fcfg CrashBftFork.fbc CrashBft.tr_small CrashBft.small CrashBftFork.fsg CrashBftFork.fcm
+                   CrashBftFork.fs0 CrashBftFork.fnode CrashBftFork.fhist.
+Proof. exact CrashBftFork.f_bridge_hypotheses. Qed.
+
+(* ... the derived coupling is checked on the final store and on the store resumed after the F6-window cut of the SIDE store
+   point 7' ... *)
+Example fork_flags_are_tallies :
+  CrashBft.flags_are_tallies CrashBftFork.fcfg CrashBftFork.fbc CrashBft.tr_small CrashBftFork.fsg CrashBftFork.fcm
+                             CrashBftFork.fmaster (run CrashBftFork.fcfg CrashBftFork.fs0 CrashBftFork.fhist) /\
+  cut_in_import CrashBftFork.fcfg CrashBftFork.fs0 CrashBftFork.fhist CrashBftFork.f_cut 8 /\
+  stored (crash CrashBftFork.fcfg CrashBftFork.fs0 CrashBftFork.fhist CrashBftFork.f_cut) (bid 7 7) = true /\
+  has (crash CrashBftFork.fcfg CrashBftFork.fs0 CrashBftFork.fhist CrashBftFork.f_cut) (KQuality (bid 7 7)) = false /\
+  match resume CrashBftFork.fcfg true (crash CrashBftFork.fcfg CrashBftFork.fs0 CrashBftFork.fhist CrashBftFork.f_cut)
+               (skipn 8 CrashBftFork.fhist) with
+  | Some r => CrashBft.flags_are_tallies CrashBftFork.fcfg CrashBftFork.fbc CrashBft.tr_small CrashBftFork.fsg CrashBftFork.fcm
+                                         CrashBftFork.fmaster r
+  | None => False
+  end.
+Proof. exact CrashBftFork.f_flags_are_tallies. Qed.
+
+(* ... the abstraction of the crash store (final and resumed) is the Bft node that imported the thirteen blocks: 14 stored
+   blocks, best = block 11, finalized = block 4, quality records 1, 2, 1 (side branch), 3 ... *)
+Example fork_abs_is_bft_run :
+  CrashBft.BM.n_repo (CrashBftFork.fabs (run CrashBftFork.fcfg CrashBftFork.fs0 CrashBftFork.fhist)) = CrashBft.BM.n_repo CrashBftFork.frun /\
+  CrashBft.BM.n_best (CrashBftFork.fabs (run CrashBftFork.fcfg CrashBftFork.fs0 CrashBftFork.fhist)) = CrashBft.BM.n_best CrashBftFork.frun /\
+  CrashBft.BM.e_fin (CrashBft.BM.n_eng (CrashBftFork.fabs (run CrashBftFork.fcfg CrashBftFork.fs0 CrashBftFork.fhist))) =
+    CrashBft.BM.e_fin (CrashBft.BM.n_eng CrashBftFork.frun) /\
+  length (CrashBft.BM.n_repo CrashBftFork.frun) = 14%nat /\
+  CrashBft.BM.n_best CrashBftFork.frun = CrashBft.tr_small (bid 11 3) /\
+  CrashBft.BM.e_fin (CrashBft.BM.n_eng CrashBftFork.frun) = CrashBft.tr_small (bid 4 0) /\
+  map (fun id => CrashBft.BM.get_q (CrashBft.BM.e_qs (CrashBft.BM.n_eng CrashBftFork.frun)) (CrashBft.tr_small id))
+      [bid 3 1; bid 7 3; bid 7 7; bid 11 3] = [1; 2; 1; 3] /\
+  map (fun id => get_quality (run CrashBftFork.fcfg CrashBftFork.fs0 CrashBftFork.fhist) id) [bid 3 1; bid 7 3; bid 7 7; bid 11 3] = [1; 2; 1; 3] /\
+  option_map (fun r => (CrashBft.BM.n_repo (CrashBftFork.fabs r), CrashBft.BM.n_best (CrashBftFork.fabs r),
+                        CrashBft.BM.e_fin (CrashBft.BM.n_eng (CrashBftFork.fabs r))))
+    (resume CrashBftFork.fcfg true (crash CrashBftFork.fcfg CrashBftFork.fs0 CrashBftFork.fhist CrashBftFork.f_cut) (skipn 8 CrashBftFork.fhist)) =
+  Some (CrashBft.BM.n_repo CrashBftFork.frun, CrashBft.BM.n_best CrashBftFork.frun, CrashBft.BM.e_fin (CrashBft.BM.n_eng CrashBftFork.frun)).
+Proof. exact CrashBftFork.f_abs_is_bft_run. Qed.
+
+(* ... and a theorem of the FromGenesis section (resumed_node_is_bft_run) APPLIED to it *)
+Example fork_resumed_node_is_bft_run :
+  exists r, resume CrashBftFork.fcfg true (crash CrashBftFork.fcfg CrashBftFork.fs0 CrashBftFork.fhist CrashBftFork.f_cut)
+                   (skipn 8 CrashBftFork.fhist) = Some r /\
+    (exists best, get_id r KBest = Some best /\ CrashBft.BM.n_best CrashBftFork.frun = CrashBft.tr_small best) /\
+    CrashBft.BM.e_fin (CrashBft.BM.n_eng CrashBftFork.frun) = CrashBft.tr_small (finalized CrashBftFork.fcfg r) /\
+    (forall id, CrashBft.small id -> CrashBft.BT.known (CrashBft.BM.n_repo CrashBftFork.frun) (CrashBft.tr_small id) = stored r id) /\
+    (forall id, CrashBft.small id ->
+       CrashBft.BM.get_q (CrashBft.BM.e_qs (CrashBft.BM.n_eng CrashBftFork.frun)) (CrashBft.tr_small id) = get_quality r id).
+Proof. exact CrashBftFork.f_resumed_is_bft_run. Qed.
+
 Print Assumptions import_keeps_visible_complete.
 Print Assumptions every_cut_satisfies_invariant.
 Print Assumptions crash_consistent.
+Print Assumptions crash_during_repair_is_consistent.
+Print Assumptions fork_bridge_flags.
+Print Assumptions fork_bridge_hypotheses_met.
+Print Assumptions fork_flags_are_tallies.
+Print Assumptions fork_abs_is_bft_run.
+Print Assumptions fork_resumed_node_is_bft_run.
 Print Assumptions bft_records_after_block.
 Print Assumptions genesis_store_invariant.
 Print Assumptions resume_quality_refuted.
